@@ -5,7 +5,7 @@ set -e
 REPO=${VERIF_REPO:-/repo}
 V=$(cd "$(dirname "$0")" && pwd)
 T=${1:-all}
-OUT=${2:-$V/build}
+OUT=${2:-${VERIF_BUILD:-$V/build}}
 mkdir -p "$OUT"
 CC=clang
 INSTR="-std=gnu11 -O1 -g -fsanitize=thread -femulated-tls -mllvm -tsan-instrument-func-entry-exit=0 -mllvm -tsan-instrument-read-before-write=1"
@@ -38,6 +38,23 @@ rt|all)
   run $CC -std=gnu11 -O2 -g -fno-builtin $INC $WARN -c $V/engine/lin.c -o $OUT/lin.o
   waitall
   $CC -g -no-pie -o $OUT/runner_rt $OUT/rt_core.o $OUT/rt_ops.o $OUT/rt_table.o $OUT/rt_h_*.o $OUT/ds_*.o $OUT/lin.o $OUT/lib/*.o $OUT/vsched.o -ldl -lm
+  ;;&
+esac
+case $T in
+fuzz|all)
+  # libFuzzer front end for the thread-level structures: same objects plus coverage instrumentation
+  FZ=$OUT/fz; mkdir -p $FZ/lib
+  run $CC -std=gnu11 -O2 -g -fno-builtin -fno-stack-protector -c $V/engine/vsched.c -o $FZ/vsched.o
+  run $CC -std=gnu11 -O2 -g -fno-builtin $INC $WARN -c $V/engine/lin.c -o $FZ/lin.o
+  for s in $LIBSRC; do
+    run $CC $INSTR -fsanitize=fuzzer-no-link -fno-sanitize-coverage=stack-depth $DEFS $INC $WARN -c $REPO/src/$s.c -o $FZ/lib/$s.o
+  done
+  for f in $V/harness/rt_ops.c $V/harness/rt_table.c $V/harness/rt_h_*.c $V/harness/ds_*.c $V/harness/fuzz_ds.c; do
+    run $CC $INSTR -fsanitize=fuzzer-no-link -fno-sanitize-coverage=stack-depth $DEFS $INC $WARN -c $f -o $FZ/$(basename $f .c).o
+  done
+  run $CC -std=gnu11 -O1 -g -fno-builtin -DRT_NO_MAIN $DEFS $INC $WARN -c $V/harness/rt_core.c -o $FZ/rt_core.o
+  waitall
+  clang -g -no-pie -fsanitize=fuzzer -o $OUT/fuzz_ds $FZ/rt_core.o $FZ/rt_ops.o $FZ/rt_table.o $FZ/rt_h_*.o $FZ/ds_*.o $FZ/fuzz_ds.o $FZ/lin.o $FZ/lib/*.o $FZ/vsched.o -ldl -lm
   ;;&
 esac
 case $T in
